@@ -148,6 +148,12 @@ Proof.
   - exact HX.
   - exact HX.
   - exact HX.
+  - (* Scope, body does not return *)
+    specialize (IHrun X HX).
+    destruct o; cbn [sel on oe or_ ob oc] in *; try congruence; try exact IHrun.
+    apply In_union. left. exact IHrun.
+  - (* Scope, body returns: the helper's return is a normal completion of the call *)
+    specialize (IHrun X HX). cbn [sel on or_] in *. apply In_union. right. exact IHrun.
 Qed.
 
 (* ---------- the property-level consequence ---------- *)
